@@ -106,8 +106,14 @@ def gen_plan(seed, k):
         else:
             w0.add(El("transition", {"target": "wf"}))
         wrk.add(El("final", {"id": "wf"}))
-        winv = inv.add(El("invoke", {"type": "scxml", "id": "wrk"}))
+        # in the same state, or in the enclosing one (two invoking states active at once)
+        whome = inv if rp.random() < 0.5 else top
+        winv = whome.add(El("invoke", {"type": "scxml", "id": "wrk"}))
         winv.add(El("content", children=[wrk]))
+        if whome is top and rp.random() < 0.6:
+            # ... and one that does not finish by itself, so that it is still running when the session ends
+            for c in list(w0.children):
+                w0.children.remove(c)
     has_finalize = rp.random() < 0.7
     if has_finalize:
         fz = invoke.add(El("finalize"))
@@ -156,7 +162,10 @@ def gen_plan(seed, k):
     if quiesce:
         hops.append({"op": "sleep", "ms": 100})
         hops.append({"op": "settle"})
-    hops.append({"op": "recv", "i": 0, "name": "quit"})
+    if rp.random() < 0.3:
+        hops.append({"op": "cancel", "i": 0})     # the session is cancelled with whatever is still active and invoked
+    else:
+        hops.append({"op": "recv", "i": 0, "name": "quit"})
     block = rp.choice([-1, -1, 20, 3])
     actors = {"main": [{"op": "create", "i": 0, "chart": "main", "engine": rp.choice(["default", "large", "fast"])},
                        {"op": "spawn", "actor": "stepper"}, {"op": "spawn", "actor": "h"}],
@@ -203,6 +212,7 @@ def oracle(plan, res):
     pending_exit = False
     n_aiv = n_aun = 0
     inv_seq = []      # (aiv seq, aun seq or None)
+    other_inv = {}
     completed = False
     for r in lines:
         if r[SESS] != "i0":
@@ -217,7 +227,9 @@ def oracle(plan, res):
             if invoked:
                 pending_exit = True
         elif kd in ("aiv", "aun") and len(r) > 6 and r[6] != "kid":
-            continue     # the sibling invocation "wrk" only matters as a source of done.invoke.wrk
+            # the sibling invocation "wrk": a source of done.invoke.wrk, and it must be cancelled before the session completes
+            other_inv[r[6]] = other_inv.get(r[6], 0) + (1 if kd == "aiv" else -1)
+            continue
         elif kd == "aiv":
             n_aiv += 1
             if invoked:
@@ -242,8 +254,24 @@ def oracle(plan, res):
                 v.append(("C11.uninvoke-once", "macrostep ended (seq %d) with the invocation still running although its state is not active" % r[SEQ]))
         elif kd == "acp":
             completed = True
-            if invoked:
-                v.append(("C11.uninvoke-once", "interpreter completed with the invocation of 'kid' never cancelled (no afterUninvoking)"))
+            # (invocations still running are cancelled inside the completion bracket, without uninvoke notifications:
+            # checked below through the cancel request that must have reached each child's queue)
+    # ---- completion cancels every invocation that is still running, in whichever state it was started
+    p_acp = [r[SEQ] for r in lines if r[SESS] == "i0" and r[KIND] == "acp"]
+    if p_acp and not res.failed_hard():
+        for c in [x for x in sorted(b.invokeid, key=lambda x: (len(x), x)) if x.startswith("c")]:
+            started = [r[SEQ] for r in lines if r[SESS] == c and r[KIND] in ("bms", "bes")]
+            if not started or started[0] > p_acp[0]:
+                continue
+            c_done = [r[SEQ] for r in lines if r[SESS] == c and r[KIND] == "bcp"]
+            if c_done and c_done[0] < p_acp[0]:
+                continue   # finished (or was cancelled) before
+            cq = b.ext.get(c)
+            marker = [r[SEQ] for r in lines if r[KIND] == "enq<" and r[SESS] == cq and not r[6].get("name")]
+            if not marker or marker[0] > p_acp[0]:
+                v.append(("C11.uninvoke-once", "the interpreter completed (afterCompletion at seq %d) while the invoked session %s (invoke id %s) was still running and had not been told to cancel" % (
+                    p_acp[0], c, b.invokeid.get(c))))
+                break
     info["invocations"] = n_aiv
     # ---- per child session facts
     child_final = {}   # tag -> seq of entering cf
